@@ -15,8 +15,12 @@ import c09_stats as tr_stats  # noqa: E402
 import c09_cluster as tr_cluster  # noqa: E402
 
 ID = "C09"
-PROPS_FILES = ["Gama/Props/C09.lean", "Gama/Props/C09Solvers.lean", "Gama/Props/C09Net.lean", "Gama/Props/C09Cluster.lean"]
-LEAN_TARGETS = ["Gama.Props.C09", "Gama.Props.C09Solvers", "Gama.Props.C09Net", "Gama.Props.C09Cluster"]
+PROPS_FILES = ["Gama/Props/C09.lean", "Gama/Props/C09Solvers.lean", "Gama/Props/C09Net.lean", "Gama/Props/C09Cluster.lean",
+               "Gama/Props/C09SvdDecompose.lean",
+               "Gama/Props/C09NetScaling.lean"]
+LEAN_TARGETS = ["Gama.Props.C09", "Gama.Props.C09Solvers", "Gama.Props.C09Net", "Gama.Props.C09Cluster",
+                "Gama.Props.C09SvdDecompose",
+                "Gama.Props.C09NetScaling"]
 DRIVERS = ["drv_stats"]
 RULE = ("generated noisy networks (2D direction/distance fixed and free, small-dof intersections, levelling, "
         "correlated coordinate clusters) x sigma-act x conf-pr in (0,1) x sigma-apr in {0.1..100} x 4 algorithms; "
@@ -35,9 +39,13 @@ TRUSTED = [
     "by executing its output next to the C++ on every run",
     "Scalar R / StatsTrig R instances of Lemmas/StatsReal.lean: sqrt = Real.sqrt, atan2 y x = Complex.arg (x + y i), pi",
     "hypotheses of the composed theorems of Props/C09Solvers.lean are those of the solver theorems they cite (C01/C03/C20: "
-    "static well-formedness of the problem, 'rank numerically unambiguous' on the model's own trace, the svd certificate); "
+    "static well-formedness of the problem, 'rank numerically unambiguous' on the model's own trace; svd: no certificate - "
+    "the factors Svd.decompose returns with unambiguous singular values, Props/C09SvdDecompose.lean); "
     "C09_sigma_apr_scaling is about uncorrelated observations (diagonal weights, whitening diag(sigma-apr/stdev)) and takes "
-    "IsLSSolution of the two adjustments (the conclusion of the C01 theorems) as hypotheses",
+    "IsLSSolution of the two adjustments (the conclusion of the C01 theorems) as hypotheses; at the network level "
+    "(Props/C09NetScaling.lean: C09_net_sigma_apr_scaling about NetFacade.netSolve for m_0_apr and s*m_0_apr, any two "
+    "algorithms) nothing of this is assumed: the block Cholesky whitening of prepareProjectEquations scales exactly "
+    "(W' = s W, correlated clusters included; C09_net_whitening_scales) and IsLSSolution comes from the C01 net theorems",
     "tools/gen/c09_stats.py also reads results/text/adjusted_{unknowns,observations}.h (every use of kki); the html and sql "
     "writers (html.cpp, localnetwork2sql.cpp) are outside the property (text/XML) and not read",
     "tools/gen/c09_cluster.py (translator obsdata.h Cluster<Observation>::update / Cluster::stdDev, observation.cpp "
@@ -66,7 +74,9 @@ LEVEL_TEXT = ("Lean 4 theorems over the reals about every statistic formula of L
               "numbers, the 2x2 block of the returned cofactor matrix is PSD (derived) so the ellipse is its eigen-decomposition, "
               "standard deviations = actual reference deviation x sqrt(solver cofactor) with the residual clamp never active, "
               "confidence half-width = stdev x Student/Normal (C17's models) selected by sigma-act for every conf-pr in (0,1), "
-              "and sigma-apr scaling derived from LS9 + uniqueness for two adjustments; the 18 formulas (incl. the XML writer's "
+              "and sigma-apr scaling derived from LS9 + uniqueness for two adjustments - for the solver models and, at the network level, "
+              "as ONE theorem about the facade model netSolve for m_0_apr and s*m_0_apr (any two algorithms, correlated clusters "
+              "included: the block Cholesky whitening scales exactly); the 18 formulas (incl. the XML writer's "
               "<aposteriori>, <ratio>, <err-obs>/<err-adj>, the text writers' half-width product and the table of its sites) are regenerated from the C++ text on every run and proved "
               "equal to the reference model; model executed at Float next to an in-process LocalNetwork; every numeric "
               "field of the XML result recomputed from the other fields; when a formula changes, the argument where it "
@@ -77,7 +87,9 @@ LEVEL_TEXT = ("Lean 4 theorems over the reals about every statistic formula of L
               "equal entry by entry to the facade model's obsStdDev (index list of activeCov()); the harness feeds the model the "
               "own variance found by pointer search, independent of cluster_index.")
 LEVEL_NOTE = ("Not covered by the theorems: the values of the Normal/Student quantiles beyond what C17 proves, IEEE rounding; "
-              "the solver facts are cited from C01/C03/C20 under their hypotheses (svd: certificate). sigma_L of observations in clusters with a non-diagonal "
+              "the solver facts are cited from C01/C03/C20 under their hypotheses (svd: the factors Svd.decompose returns with unambiguous singular values - no certificate; "
+              "convergence of its QR iteration is not proved). The absolute pivot tolerances of the envelope / cholesky kernels "
+              "break the sigma-apr invariance on the real code for extreme weights: known finding C09-F2. sigma_L of observations in clusters with a non-diagonal "
               "covariance matrix uses the uncorrelated formula in the C++ (theorem _partial; see report).")
 TECHNIQUE = "Lean 4 proof (real analysis: Complex.arg half-angle, sqrt) + source-to-Lean translator + correspondence + XML oracle"
 
